@@ -238,14 +238,43 @@ fn commands(out: &mut Out, r: &mut Rng, histories: u64, len: u64) {
         let blocks = random_tape(r, 2, hdr);
         out.ev(json!({"ev":"tape","blocks":blocks}));
         let mut d = Deck::new(&blocks);
+        // (`started`: PLAY was pressed since the tape was inserted / wound back on a stopped deck / ran off its end;
+        // `consumed`: blocks taken by the fast loader from the fresh tape since then)
+        let (mut started, mut consumed) = (false, 0usize);
         for _ in 0..len {
             if d.failed {
                 break;
+            }
+            if d.stopped() && started && !d.tap.can_fast_load() {
+                unreachable!();
             }
             match r.below(10) {
                 0..=2 => {
                     out.ev(json!({"ev":"play","was_stopped":d.stopped()}));
                     d.tap.play();
+                    started = true;
+                }
+                // the fast loader takes the next block of a tape that has not been started: the deck stays stopped, a later
+                // PLAY goes on behind that block - unless the tape is wound back first
+                6 if !started && d.stopped() && consumed < blocks.len() && r.chance(2, 3) => {
+                    let ok = match d.tap.next_block() {
+                        Ok(true) => {
+                            loop {
+                                match d.tap.next_block_byte() {
+                                    Ok(Some(_)) => {}
+                                    Ok(None) => break true,
+                                    Err(_) => break false,
+                                }
+                            }
+                        }
+                        _ => false,
+                    };
+                    if !ok {
+                        d.fail(out, "fast loader could not take the next block of a well-formed tape".into());
+                    } else {
+                        consumed += 1;
+                        out.ev(json!({"ev":"fastblock"}));
+                    }
                 }
                 3..=4 => {
                     out.ev(json!({"ev":"stop"}));
@@ -259,6 +288,10 @@ fn commands(out: &mut Out, r: &mut Rng, histories: u64, len: u64) {
                         }
                         d.level = d.tap.current_bit();
                         d.since = 0;
+                        if d.stopped() {
+                            started = false;
+                            consumed = 0;
+                        }
                     }
                 }
                 _ => {
@@ -287,6 +320,11 @@ fn commands(out: &mut Out, r: &mut Rng, histories: u64, len: u64) {
                         d.level = d.tap.current_bit();
                     } else {
                         d.run(t, r, out);
+                        if d.stopped() {
+                            // ran off its end: wound back by itself
+                            started = false;
+                            consumed = 0;
+                        }
                     }
                 }
             }
@@ -573,10 +611,27 @@ fn romload(out: &mut Out, r: &mut Rng, tapes: u64) {
         if m128 {
             page_rom1(&mut emu);
         }
+        // a quarter of the tapes begin with a long block that a program fetches through the fast loader - only a part of it:
+        // a request shorter than the block, ending on or around a multiple of the player's 128-byte window - before the
+        // listener presses PLAY and the rest is loaded in real time
+        let partial = cfg.fastload && ti % 4 == 3;
+        let mut blocks = blocks;
+        if partial {
+            let mut b = r.bytes(300);
+            b[0] = 0xFF;
+            blocks.insert(0, b);
+        }
         emu.load_tape(Tape::Tap(DynAsset::mem(tap_bytes(&blocks)))).expect("load_tape");
         out.ev(json!({"ev":"tape","blocks":blocks,"m128":m128,"realtime":true}));
+        if partial {
+            let rq = Req { a: 0xFF, carry: true, ix: 0x9000, de: *r.pick(&[126u16, 126, 254, 125, 127, 10]) };
+            let mut ev = ld_request(&mut emu, &rq, None, 50, r);
+            ev["m"] = json!(if m128 { 128 } else { 48 });
+            out.ev(ev);
+            emu.set_fast_load(false);
+        }
         emu.play_tape();
-        for blk in blocks.iter() {
+        for blk in blocks.iter().skip(if partial { 1 } else { 0 }) {
             let mut rq = request_for(r, Some(blk));
             if rq.de == 0 && r.chance(1, 2) {
                 rq.de = blk.len().saturating_sub(2) as u16;
@@ -633,7 +688,7 @@ fn emudeck(out: &mut Out, r: &mut Rng, runs: u64) {
         if m128 {
             pages.push_back(page.clone());
         }
-        emu.load_rom(VRomSet { pages }).expect("rom");
+        emu.load_rom(VRomSet { pages, chunk: 0 }).expect("rom");
         let mix = (ri / 2) % 5;
         let (prog, ei): (&[u8], bool) = match mix {
             0 => (&[0xF3, 0x18, 0xFE], false),                               // DI; JR $
